@@ -13,6 +13,10 @@ from ..pools import Rng
 
 
 LIMIT = 3
+# every variable the marker grammar accepts (incl. the PEP 751 ones and the dotted legacy spellings): names that contain / are contained in others matter
+ALL_VARIABLES = ["extras", "extra", "dependency_groups", "python_version", "python_full_version", "os_name", "os.name", "sys_platform", "sys.platform",
+                 "platform_release", "platform_system", "platform_version", "platform.version", "platform_machine", "platform.machine",
+                 "platform_python_implementation", "platform.python_implementation", "python_implementation", "implementation_name", "implementation_version"]
 # shapes that exercised corner paths of union()/of() during the exploration; always part of the pool
 WITNESS_TEXTS = [
     'os_name != "a" and python_version <= "3.6" or platform_machine != "b" and os_name in "a c"',
@@ -174,7 +178,7 @@ def run(tier="quick", seed=0, arg=None):
         for tm, m in ((ta, a),):
             vs = sorted(OM.variables(m))
             vm = vec(m)
-            subsets = [vs[:1], vs[1:], vs] if vs else [[]]
+            subsets = ([vs[:1], vs[1:], vs] if vs else [[]]) + [[ALL_VARIABLES[(i + j) % len(ALL_VARIABLES)] for j in range(2)] + vs[:1]]
             for names in subsets:
                 evals += 1
                 try:
@@ -195,7 +199,7 @@ def run(tier="quick", seed=0, arg=None):
                     fail("C12.only.same", {"marker": tm, "names": names}, str(o), "same meaning")
                 if OM.nf(o):
                     fail("C15.nf", {"marker": tm, "op": "only", "names": names}, {"result": str(o), "why": OM.nf(o)}, "normal form")
-            for name in (vs[:2] + ["extra", "os_name"]):
+            for name in (vs[:2] + ["extra", "os_name"] + [ALL_VARIABLES[(i + j) % len(ALL_VARIABLES)] for j in range(3)]):
                 evals += 1
                 try:
                     with time_limit(LIMIT):
